@@ -37,7 +37,8 @@ Candidate genuine defects re-found on the unchanged tree (they keep firing):
   literal-not-inlined:isdistinct   visit_is_[not_]distinct_from_binary of sqlite, mysql,
         mssql, oracle call self.process() without **kw: literal_binds is lost
 
-Guards: floats are compared within 1e-13 relative (SQLite's text->double conversion of
+Guards: Float values whose literal text SQLite itself does not parse back to the same
+double are dropped from the pool (counted); floats are compared within 1e-13 relative (SQLite's text->double conversion of
 the literal is not always correctly rounded); -0.0 == 0.0; Numeric/Float literals without a fraction come back as INTEGER
 from SQLite (0 vs 0.0 compared numerically); the typed round trip of Numeric/Float is
 compared with the typed *bound* result (column scale applies to both); Oracle's
@@ -65,7 +66,8 @@ META = {
     "soft_s": {"quick": 50, "thorough": 800},
     "exhaustive": {"quick": False, "thorough": False},
     "require": ["exec_three_way_compared", "rows_returned", "roundtrip_checked", "shape_checked", "literal_tokens_decoded",
-                "lexer_calibrated_on_sqlite", "adversarial_strings", "callable_bind_deliveries", "token_checks_on_callable_form", "inlist_cases"],
+                "lexer_calibrated_on_sqlite", "adversarial_strings", "callable_bind_deliveries", "token_checks_on_callable_form", "inlist_cases",
+                "literal_at_execution_cache_hits", "aware_datetime_cases", "fake_sequence_statements", "fake_sequence_cache_hits"],
     "assumptions": ["transcribed literal grammars of PG/MySQL/MSSQL/Oracle are correct (part B)"],
 }
 
@@ -80,9 +82,17 @@ CHARS = list("ab'\\\"%:?-/*#;$`[]{}\n _é") + ["''", "\\'", "--", "/*", "%%", "%
 INTS = [0, 1, -1, 7, -7, 42, 2 ** 31 - 1, -(2 ** 31), 2 ** 31, 2 ** 63 - 1, -(2 ** 63), 10 ** 15]
 FLOATS = [0.0, -0.0, 1.5, -2.25, 0.1, -0.1, 1e-7, 1.5e10, 123456.789, -1e-20, 1e20, 3.0, 2.5e-5, 1234567.125]
 DECIMALS = ["0", "1.10", "-3.5", "12345.678901", "1E+5", "0.000001", "-0.5", "7", "1E-7", "99999999.99"]
-DATES = [dt.date(2020, 1, 31), dt.date(1970, 1, 1), dt.date(9999, 12, 31), dt.date(1, 1, 1), dt.date(2024, 2, 29)]
-DATETIMES = [dt.datetime(2020, 1, 31, 23, 59, 59), dt.datetime(1999, 12, 31, 0, 0, 0, 123456), dt.datetime(2024, 2, 29, 12, 0, 1, 1)]
-TIMES = [dt.time(0, 0, 0), dt.time(23, 59, 59, 999999), dt.time(12, 30)]
+IST = dt.timezone(dt.timedelta(hours=5, minutes=30))
+WEST = dt.timezone(dt.timedelta(hours=-8), "PST")
+# value alphabet of the date/time types: naive and timezone-AWARE values (UTC, +05:30, -08:00),
+# microseconds 0 / non-0, years < 1000, a datetime given where a date is expected
+DATES = [dt.date(2020, 1, 31), dt.date(1970, 1, 1), dt.date(9999, 12, 31), dt.date(1, 1, 1), dt.date(2024, 2, 29), dt.date(999, 12, 31),
+         dt.datetime(2021, 3, 4, 5, 6, 7), dt.datetime(2021, 3, 5, 23, 59, 59, 5, tzinfo=IST)]
+DATETIMES = [dt.datetime(2020, 1, 31, 23, 59, 59), dt.datetime(1999, 12, 31, 0, 0, 0, 123456), dt.datetime(2024, 2, 29, 12, 0, 1, 1),
+             dt.datetime(999, 1, 2, 3, 4, 5), dt.datetime(33, 12, 31, 23, 59, 59, 999999),
+             dt.datetime(2021, 3, 15, 12, 5, 58, tzinfo=dt.timezone.utc), dt.datetime(2021, 3, 15, 12, 5, 59, 250000, tzinfo=IST),
+             dt.datetime(2000, 1, 1, 0, 0, 0, tzinfo=WEST), dt.datetime(750, 6, 7, 8, 9, 10, 11, tzinfo=dt.timezone.utc)]
+TIMES = [dt.time(0, 0, 0), dt.time(23, 59, 59, 999999), dt.time(12, 30), dt.time(1, 2, 3, tzinfo=dt.timezone.utc), dt.time(4, 5, 6, 700, tzinfo=IST)]
 
 
 def str_feature(v):
@@ -123,6 +133,10 @@ def feature(tname, v, other=None, position=None):
         return str_feature(v)
     if tname in ("Integer", "BigInteger", "Float", "Numeric"):
         return num_feature(v)
+    if getattr(v, "tzinfo", None) is not None:
+        return "aware-" + type(v).__name__
+    if tname == "Date" and isinstance(v, dt.datetime):
+        return "datetime-as-date"
     return tname.lower()
 
 
@@ -144,12 +158,15 @@ class Rig:
         self.eng = sa.create_engine("sqlite://")
         self.md.create_all(self.eng)
         self.conn = self.eng.connect()
-        self.conn_nocache = self.conn.execution_options(compiled_cache=None)
+        # a second Connection (Connection.execution_options() works in place); the in-memory
+        # SQLite pool hands the same DBAPI connection to both
+        self.conn_nocache = self.eng.connect().execution_options(compiled_cache=None)
 
     def col(self, tname, table=None):
         return (table if table is not None else self.v).c["c_" + tname.lower()]
 
     def close(self):
+        self.conn_nocache.close()
         self.conn.close()
         self.eng.dispose()
 
@@ -186,6 +203,10 @@ POSITIONS = {
 }
 
 
+for _k in ("String", "Unicode", "Text"):
+    POSITIONS[_k] = POSITIONS[_k] + ("aggstrings",)
+# positions whose construct renders its argument as a literal at EXECUTION time by itself
+SELF_LITERAL = {"aggstrings"}
 POSITIONS = {k: v + (("inlist", "inlist_nn") if k in ("String", "Unicode", "Text", "Integer", "Date") else ("inlist",)) for k, v in POSITIONS.items()}
 
 
@@ -234,6 +255,12 @@ def build(rig, tname, value, other, position, mk):
         return sa.select((b(value) + b(other)).label("x"), (col + b(value)).label("y")).where(v.c.id <= 5).order_by(v.c.id)
     if position == "isdistinct":
         return sa.select(v.c.id).where(col.is_distinct_from(b(value))).order_by(v.c.id).limit(60)
+    if position == "aggstrings":
+        # the delimiter of aggregate_strings() is rendered literally at execution time
+        return sa.select(sa.func.aggregate_strings(col, b(value)).label("x")).where(v.c.id <= 6)
+    if position == "aggstrings:reference":
+        # the same with an ordinary bound delimiter (SQLite spelling)
+        return sa.select(sa.func.group_concat(col, b(value)).label("x")).where(v.c.id <= 6)
     if position == "values":
         return sa.insert(rig.v2).values({rig.col(tname, rig.v2): b(value), rig.v2.c.id: sa.literal_column("1")})
     raise ValueError(position)
@@ -292,6 +319,17 @@ def run(ctx):
     rig = Rig(ctx, sa)
     try:
         P = pools(ctx)
+        # precondition of the Float cases: SQLite's own text->double conversion of the literal
+        # text is exact for this value (it is not always: 9653.6463614667 -> 9653.646361466701);
+        # otherwise "WHERE col = <literal>" cannot match the bound double, whatever is rendered
+        exact = []
+        for f in P["Float"]:
+            back = rig.conn.exec_driver_sql("SELECT " + repr(f)).scalar()
+            if float(back) == f:
+                exact.append(f)
+            else:
+                ctx.count("floats_dropped_backend_parse_inexact")
+        P["Float"] = exact
         # fill the table with bound parameters: one row per (type, value) plus NULL rows
         rows = []
         rid = 0
@@ -326,12 +364,77 @@ def run(ctx):
                     ctx.case(desc, nontrivial=feat not in ("plain", "non-negative", "bool"))
                     if position.startswith("inlist"):
                         ctx.count("inlist_cases")
+                    if feat.startswith("aware-"):
+                        ctx.count("aware_datetime_cases")
                     exec_part(ctx, sa, T, rig, tname, value, other, position, feat, desc)
                     token_part(ctx, sa, T, rig, dialects, tname, value, other, position, feat, desc)
                     if idx % 211 == 0:
                         ctx.sample(desc)
+        fake_sequences(ctx, sa, T)
     finally:
         rig.close()
+
+
+# ---------------------------------------------------------------------------
+# sequences of same-shaped statements on ONE engine of a dialect without a server
+# ---------------------------------------------------------------------------
+SEQ_URLS = {
+    "postgresql": "postgresql+psycopg2://u:p@h/db", "mysql": "mysql+pymysql://u:p@h/db",
+    "mssql": "mssql+pyodbc://u:p@dsn", "oracle": "oracle+oracledb://u:p@h/?service_name=x",
+}
+
+
+def fake_sequences(ctx, sa, T):
+    """every construct that renders a literal at execution time (LIMIT/OFFSET on the
+    dialects that inline them, the aggregate_strings() delimiter, an explicit
+    bindparam(literal_execute=True), an expanding IN with literal_execute) is executed as a
+    SEQUENCE of same-shaped statements with different values on one recording engine with
+    the compiled cache on.  The text handed to the DBAPI by each (mostly cache-hit)
+    execution must be token-for-token the text a fresh, uncached compile of that very
+    statement renders."""
+    from vf.mon.fake_dbapi import recording_engine
+
+    md = sa.MetaData()
+    t = sa.Table("sq", md, sa.Column("id", sa.Integer, primary_key=True), sa.Column("s", sa.String(50)), sa.Column("n", sa.Integer))
+    strs = ["a", ",", "it's", "; ", "%", "x:y", "--", "\\", "b", "", "|"]
+    ints = [0, 1, 5, 2, 10, 3, 7]
+    constructs = {
+        "limit": lambda i: sa.select(t.c.id).order_by(t.c.id).limit(ints[i % len(ints)]),
+        "limit-offset": lambda i: sa.select(t.c.id).order_by(t.c.id).limit(ints[(i + 2) % len(ints)]).offset(ints[i % len(ints)]),
+        "aggregate_strings": lambda i: sa.select(sa.func.aggregate_strings(t.c.s, strs[i % len(strs)])),
+        "bindparam-literal_execute": lambda i: sa.select(t.c.id).where(t.c.s == sa.bindparam(None, strs[i % len(strs)], type_=sa.String(), literal_execute=True)),
+        "int-literal_execute": lambda i: sa.select(t.c.id).where(t.c.n > sa.bindparam(None, ints[i % len(ints)], type_=sa.Integer(), literal_execute=True)),
+        "in-literal_execute": lambda i: sa.select(t.c.id).where(
+            t.c.s.in_(sa.bindparam(None, strs[i % len(strs): i % len(strs) + 1 + i % 3], type_=sa.String(), expanding=True, literal_execute=True))),
+    }
+    for di, (name, url) in enumerate(sorted(SEQ_URLS.items())):
+        if not ctx.mine(di):
+            continue
+        eng, fake = recording_engine(url)
+        ps = eng.dialect.paramstyle
+        with eng.connect() as conn:
+            for cname, make in sorted(constructs.items()):
+                for i in range(ctx.pick({"quick": 9, "thorough": 40})):
+                    st = make(i)
+                    try:
+                        fresh = str(st.compile(dialect=eng.dialect, compile_kwargs={"render_postcompile": True}))
+                    except sa.exc.CompileError:
+                        ctx.count("fake_sequence_unsupported")
+                        break
+                    mark = fake.mark()
+                    res = conn.execute(st)
+                    if res.context.cache_hit is sa.engine.interfaces.CacheStats.CACHE_HIT:
+                        ctx.count("fake_sequence_cache_hits")
+                    sent = fake.since(mark, ("execute",))[-1].sql
+                    ctx.count("fake_sequence_statements")
+                    ctx.case({"dialect": name, "construct": cname, "i": i}, nontrivial=i > 0)
+                    a = [(x.kind, x.value if x.kind == "string" else x.text) for x in T.lex(sent, name, ps)]
+                    b = [(x.kind, x.value if x.kind == "string" else x.text) for x in T.lex(fresh, name, ps)]
+                    if a != b:
+                        ctx.violation(f"cached-statement-literal-differs-from-fresh-compile:{cname}",
+                                      f"{name}: execution #{i} sent {sent!r} but a fresh compile of the same statement renders {fresh!r}",
+                                      {"dialect": name, "construct": cname, "sent": sent, "fresh": fresh, "step": i})
+        eng.dispose()
 
 
 # ---------------------------------------------------------------------------
@@ -355,6 +458,13 @@ def exec_part(ctx, sa, T, rig, tname, value, other, position, feat, desc):
         ("bound", st_b, "exec"), ("literal_binds", st_b, "text"), ("literal_execute", st_le, "exec"),
         ("callable:bound", st_cb, "exec"), ("callable:literal_binds", st_cb, "text"), ("callable:literal_execute", st_cle, "exec"),
     ]
+    extra = []
+    if position in SELF_LITERAL:
+        # reference = the plain bound spelling; the construct with an ordinary parameter is a
+        # delivery of its own (it is the one that goes through the compiled cache)
+        deliveries[0] = ("bound", build(rig, tname, value, other, position + ":reference", mk_value(sa)), "exec")
+        deliveries.insert(1, ("construct", st_b, "exec"))
+        extra = ["construct"]
     results = {}
     sqls = {}
     for how, st, style in deliveries:
@@ -366,6 +476,8 @@ def exec_part(ctx, sa, T, rig, tname, value, other, position, feat, desc):
                 # cache-transparency matter (C02), not literal rendering
                 res = (rig.conn_nocache if how.startswith("callable:") else conn).execute(st)
                 sqls[how] = res.context.statement
+                if how in ("literal_execute", "construct") and res.context.cache_hit is sa.engine.interfaces.CacheStats.CACHE_HIT:
+                    ctx.count("literal_at_execution_cache_hits")
             else:
                 comp = st.compile(rig.eng, compile_kwargs={"literal_binds": True})
                 sqls[how] = str(comp)
@@ -392,7 +504,7 @@ def exec_part(ctx, sa, T, rig, tname, value, other, position, feat, desc):
     if base[0] == "ok":
         ctx.count("rows_returned", len(base[1]))
     ctx.count("callable_bind_deliveries", 3)
-    for how in ("literal_binds", "literal_execute", "callable:bound", "callable:literal_binds", "callable:literal_execute"):
+    for how in extra + ["literal_binds", "literal_execute", "callable:bound", "callable:literal_binds", "callable:literal_execute"]:
         got = results[how]
         if not same(got, base):
             kind = "error" if "err" in (got[0], base[0]) else "rows-differ"
@@ -409,7 +521,10 @@ def exec_part(ctx, sa, T, rig, tname, value, other, position, feat, desc):
         typed = conn.execute(st_le).scalar()
         typed_bound = conn.execute(st_b).scalar()
         ctx.count("roundtrip_checked")
-        if tname in ("Numeric", "Float"):
+        if tname in ("Date", "DateTime", "Time"):
+            # the bound form is the reference (an aware value comes back naive both ways)
+            ok = typed == typed_bound and type(typed) is type(typed_bound)
+        elif tname in ("Numeric", "Float"):
             # the typed result applies the column scale: the bound form is the reference
             ok = same(norm(float(typed)), norm(float(typed_bound)))
         else:
@@ -562,7 +677,7 @@ def token_part(ctx, sa, T, rig, dialects, tname, value, other, position, feat, d
             continue
         lits = [lt for (s, lt), (s2, bt) in zip(ln, bn) if s == "?" and bt is not None and bt[0] == "param"]
         expect_n = {"select": 1, "where": 1, "in": 2, "inlist": 3, "inlist_nn": 2, "case": 3, "values": 1, "neg": 1, "like": 1, "concat": 3, "isdistinct": 1}.get(position)
-        if position in ("limit", "neg"):
+        if position in ("limit", "neg", "aggstrings"):
             continue
         if expect_n is not None and len(lits) < expect_n:
             ctx.violation(mech("literal-token-missing", position, feat, use_callable), f"{label}: {len(lits)} literal tokens for {expect_n} binds :: {lit_sql[:200]}",
